@@ -20,7 +20,7 @@ func verifROType(i int) string {
 	if i == 0 {
 		return "d"
 	}
-	return "e"
+	return "dd" // "d" is a strict prefix of it: a type filter must compare whole type names
 }
 
 func verifROID(i int) string {
@@ -65,7 +65,7 @@ func verifRUser(u int) string {
 	case 5:
 		return "g:*"
 	}
-	return "h:x#m"
+	return "gg:x#m" // type "g" is a strict prefix of type "gg"
 }
 
 // user object (without relation) and relation, as ReadStartingWithUser takes them
@@ -84,7 +84,7 @@ func verifRUserObject(u int) string {
 	case 5:
 		return "g:*"
 	}
-	return "h:x"
+	return "gg:x"
 }
 
 func verifRUType(u int) int { // 0 user, 1 g, 2 h
@@ -104,7 +104,7 @@ func verifRUTypeName(t int) string {
 	if t == 1 {
 		return "g"
 	}
-	return "h"
+	return "gg"
 }
 
 func verifRUWild(u int) bool { return u == 2 || u == 5 }
@@ -498,7 +498,7 @@ func verifRRestriction(i int) *openfgav1.RelationReference {
 	case 1:
 		return &openfgav1.RelationReference{Type: "g", RelationOrWildcard: &openfgav1.RelationReference_Relation{Relation: "n"}}
 	case 2:
-		return &openfgav1.RelationReference{Type: "h", RelationOrWildcard: &openfgav1.RelationReference_Relation{Relation: "m"}}
+		return &openfgav1.RelationReference{Type: "gg", RelationOrWildcard: &openfgav1.RelationReference_Relation{Relation: "m"}}
 	case 3:
 		return &openfgav1.RelationReference{Type: "g", RelationOrWildcard: &openfgav1.RelationReference_Wildcard{Wildcard: &openfgav1.Wildcard{}}}
 	case 4:
